@@ -66,6 +66,15 @@ def symOps : Ops String :=
 def layerOf (tag : String) (names : List String) : List (String × String) :=
   names.map (fun n => (n, tag ++ ":" ++ n))
 
+/-- the caller's context: a JSON array of keys is a plain dict; an object
+`{"name": str|null, "muts": [keys], "layers": [...]}` is a `LayeredMapping` -/
+partial def ctxOf (j : Json) : LMap.Layer String :=
+  match j with
+  | .arr a => .dict (layerOf "context" (a.toList.map asStr))
+  | _ =>
+    .lm (match jval j "name" with | .str s => some s | _ => none)
+      (layerOf "context" (strs j "muts")) ((jarr j "layers").map ctxOf)
+
 def runJ (L : Layers String) (fs : List PFactor) : Json :=
   match materialize symOps L fs with
   | .ok (vals, vars) =>
@@ -79,7 +88,7 @@ def runJ (L : Layers String) (fs : List PFactor) : Json :=
 def handleFormula (j : Json) : Json :=
   let fs := (jarr j "factors").map factorOf
   let L : Layers String :=
-    { data := layerOf "data" (strs j "data"), context := layerOf "context" (strs j "context"),
+    { data := layerOf "data" (strs j "data"), context := ctxOf (jval j "context"),
       transforms := layerOf "transforms" Gen.transformNames, builtins := layerOf "builtins" (strs j "builtins") }
   let bfsJ := jlist (fs.map (fun f => match f.kind with
     | .python (some c) => jlist ((astVariables c.ast c.aliases).map varJ)
